@@ -15,30 +15,55 @@ def oracles_():
 
 
 MANIFEST = {
-    "text": "Coq theorems (Properties_C10_ytext.v): the YANG printer's string output (ypr_encode/ypr_text, both layouts and quote "
-            "kinds, every indentation level) is read back by the quoted-string lexer as the same argument: for double-quoted "
-            "printing for every lexable string without a carriage return (C10_yang_text_roundtrip_dquoted; blanks before a "
-            "newline and, in the single-line layout, after a newline are covered since the printer escapes such a newline, "
-            "C10_yang_text_roundtrip_trailing_ws_fixed / _singleline_indent_fixed), for single-quoted printing for every "
-            "string without a newline; each remaining hypothesis has a refutation witness (_cr_refuted, "
-            "_squote_newline_refuted, _print_fixpoint_cr_refuted); the lexer's character rule is the RFC 7950 yang-char rule "
-            "(C10_yang_char_spec, _plane4_regression since f25b870); print is a fixpoint under the same "
-            "hypotheses (C10_yang_text_print_fixpoint_partial). Tie: extracted model vs the static C functions (T2). "
-            "Whole-module print/parse/print of description, units, presence and (double- or single-quoted) default "
-            "arguments is checked by the API oracle ymod (search). Module level (search, oracle modrt, comps_ymod.py + "
-            "impl/t_ymod.c): generated whole modules with a submodule (every statement of RFC 7950 section 7 with its "
-            "substatements in shuffled order, extension instances under every statement kind, adversarial strings and source "
-            "spellings in every string-valued statement), the structured sets of C11, data-oriented modules and the real "
-            "modules of the repository go, per feature set, through: YANG print -> fresh context -> accepted, identical compiled "
-            "print, identical second YANG and YIN print; YIN print -> fresh context -> accepted, identical compiled and YIN "
-            "print, YANG print equal as a token sequence; submodule prints likewise; the only imported (parsed, not compiled) "
-            "module likewise; compiled and tree prints identical when printed twice and from two contexts; a digest of the "
-            "compiled structures written by the driver itself (presence and other flags, defaults, units, descriptions, must / "
-            "when, types with restrictions, extension instances; absent and empty told apart) identical after both round "
-            "trips; the statements of the generated source equal the statements of the first YANG print.",
-    "note": "Modelled C: ypr_encode, ypr_text, ypr_text_squote_line, read_qstring via get_argument, buf_store_char. Statement-level "
-            "printers (printer_yang.c/printer_yin.c bodies, extension instances) and the YIN parser are only reached by the "
-            "oracles. The module generator does not write the constructs of the findings listed in known_findings.d/ymod.json "
-            "(each is replayed from its witness in corpus/ymod-findings.txt; YMOD_NO_AVOID=<tag,..|all> generates them again).",
+    "text": "PROVED (Coq, Properties_C10_ytext.v, about the model YangText.v of the C string printer and lexer): for every byte "
+            "string s the lexer accepts (ylexable), every statement name without a newline, every indentation level and "
+            "LY_PRINT_SHRINK, both layouts (text after the name / on a line of its own) and both quote kinds, lexing what "
+            "ypr_text prints for s, at the column of the opening quote and followed by a byte that is neither + nor white space, "
+            "returns exactly s - under the hypothesis rt_hyp: no carriage return when double-quoted, no newline when "
+            "single-quoted (C10_yang_text_roundtrip; double-quoted case spelled out: C10_yang_text_roundtrip_dquoted; s given as "
+            "the UTF-8 encoding of any sequence of RFC 7950 yang-char: C10_yang_text_roundtrip_unicode; the one-line form "
+            "ypr_encode between double quotes used for extension arguments: C10_yang_encode_roundtrip). Under the same "
+            "hypotheses printing the lexed text reproduces the first print (C10_yang_text_print_fixpoint_partial; partial = only "
+            "under rt_hyp). Each hypothesis is necessary, by witness: C10_yang_text_roundtrip_cr_refuted, "
+            "C10_yang_text_print_fixpoint_cr_refuted, C10_yang_text_roundtrip_squote_newline_refuted (known findings yang-cr, "
+            "yang-squote-newline). Regression statements of two repaired defects: blanks before a newline / after a newline in the "
+            "one-line layout are kept because such a newline is printed escaped (C10_yang_text_roundtrip_trailing_ws_fixed, "
+            "C10_yang_text_roundtrip_singleline_indent_fixed; fixed by f628c31); the lexer's character test equals the RFC 7950 "
+            "yang-char rule for every code point (C10_yang_char_spec, exhaustive; C10_yang_char_plane4_regression, fixed by "
+            "f25b870). Satisfiability of the hypotheses: Example C10_yang_text_example. TIE (T2): the extracted model and the "
+            "static C functions are run on the same generated inputs and must print the same bytes (ypr_encode; ypr_text for "
+            "every layout; get_argument/read_qstring on arbitrary quoted text at a column; print-then-lex). SEARCH, not proof - "
+            "everything at the level of whole modules: oracle ymod (one fixed module shape: print / parse / print of a "
+            "description, units, presence, default argument); oracle modrt (comps_ymod.py + impl/t_ymod.c): generated whole "
+            "modules with up to two submodules (every parent/substatement pair of the RFC 7950 section 7 grammar, shuffled order, "
+            "extension instances under the statement kinds, adversarial and boundary strings - empty, blank, only quotes / "
+            "newline / backslash - in every string-valued statement with both quote styles and + concatenation in the source, "
+            "numeric arguments at their limits, YANG 1 modules), the structured sets of C11, data-oriented modules, the witness "
+            "modules of the repaired findings and the real modules of the repository go, per feature set, through: YANG print -> "
+            "fresh context -> accepted, identical compiled print, identical second YANG and YIN print; YIN print -> fresh "
+            "context -> accepted, identical compiled and YIN print, YANG print equal as a token sequence (string values compared, "
+            "not their quoting or layout: YIN carries no quoting); submodule prints likewise; the only imported (parsed, not "
+            "compiled) module likewise; compiled and tree prints identical when printed twice and from two contexts; a digest of "
+            "the compiled structures written by the driver itself (flags incl. presence, defaults, units, descriptions, must / "
+            "when, types with restrictions, extension instances; absent and empty told apart) identical after both round trips; "
+            "the statements of the generated source equal, order aside, the statements of the first YANG print.",
+    "note": "Modelled (transcribed by hand, tied by T2 only): printer_yang.c ypr_encode, ypr_text_squote_line, ypr_text; "
+            "parser_yang.c get_argument entered at a quote, read_qstring, skip_comment, buf_store_char; is_yangutf8char; "
+            "ly_getutf8 (Utf8.v). The theorems speak about this model, for one argument string at a time. NOT modelled, reached "
+            "by the oracles only (a search that reports concrete failing modules, no proof): every statement-level printer "
+            "(printer_yang.c / printer_yin.c bodies, compiled and tree printers, extension instances and plugins), the YANG and "
+            "YIN statement parsers, compilation. Trusted: the drivers impl/t_ytext.c and impl/t_ymod.c, the Python generators, "
+            "the YANG tokenizer used for the YIN->YANG comparison and for source-vs-print. Outside everything: modules given as "
+            "YIN or hand-written YANG 1 source beyond the generated ones, lys_print_node / file and fd variants of the print API, "
+            "LYS_PRINT options other than the default. The module generator leaves out the constructs of the OPEN findings so "
+            "that they cannot hide anything else in the same module (yang-cr, yang-squote-newline; of known_findings.d/ymod.json: "
+            "ext-storage-realloc-dangling, refine-iffeature-default-case-crash, and yin-ext-nested-generic - nested extension "
+            "instances are generated in part of the modules, which then skip the checks that PARSE YIN), each replayed from its "
+            "witness on every run, and a few constructs that crash libyang for reasons outside C10 (refine if-feature on a "
+            "unique leaf, extension instance on a type referring to a typedef, typedef chains of three, default values of bits "
+            "types with positions near 2^32). The findings of this oracle that were repaired in /repo are listed as fixed "
+            "with their commits in known_findings.d/ymod.json (e.g. yin-ext-substmt-text a7f915d, compiled-print-ext-order "
+            "d3bb587, ext-nested-dropped 347838c, bits-position-max-bitmap 2baac78); their constructs are generated again and "
+            "their witnesses are regression cases. YMOD_NO_AVOID=<tag,..|all> generates the left-out constructs of open findings.",
     "technique": "Coq proof (printer/lexer round trip) + differential correspondence + module round-trip oracle",
 }
